@@ -629,5 +629,58 @@ theorem plain_iso_relabel (π : Nat → Nat) (v : List O) (d : LOHG O A)
   · intro e _
     simp only [plain, relabel, zipWith_edges_map, List.getElem?_map]
 
+/-! ### packing commutes with tensor -/
+
+theorem ic_tensor_ofSegs (a b : List (List Nat)) (n m : Nat) :
+    IC.tensor (IC.ofSegs a n) (IC.ofSegs b m) =
+      .ok (IC.ofSegs (a ++ b.map (·.map (· + n))) (n + m)) := by
+  rw [IC.tensor_eq _ _ (IC.ofSegs_valid a n) (IC.ofSegs_valid b m)]
+  have e : (fun x => n + x) = (fun x => x + n) := funext fun x => Nat.add_comm n x
+  simp only [IC.ofSegs, FinFun.foldl_add_eq, Nat.zero_add, List.map_append, List.map_map,
+    List.flatten_append, Function.comp_def, List.length_map, e, List.map_flatten]
+
+/-- the strict tensor of two packed diagrams is the packed lax tensor (equal data) -/
+theorem tensor_pack (d1 d2 : LOHG O A) :
+    OHG.tensor (pack d1) (pack d2) = .ok (pack (LOHG.tensor d1 d2)) := by
+  have e : (fun x => d1.hypergraph.nodes.length + x) = (fun x => x + d1.hypergraph.nodes.length) :=
+    funext fun x => Nat.add_comm _ x
+  simp only [OHG.tensor, HG.coproduct, pack, ic_tensor_ofSegs, Res.ok_bind, Res.pure_eq,
+    FinFun.tensor, LOHG.tensor, LHG.coproduct, List.map_append, List.map_map, Function.comp_def,
+    List.length_append, e]
+
+theorem tensor_wf (f g : LOHG O A) (hf : f.wf = true) (hg : g.wf = true) :
+    (LOHG.tensor f g).wf = true := by
+  obtain ⟨hfh, hfs, hft⟩ := (lohg_wf_iff f).1 hf
+  obtain ⟨hgh, hgs, hgt⟩ := (lohg_wf_iff g).1 hg
+  obtain ⟨f1, f2, f3, f4, f5⟩ := (lhg_wf_iff _).1 hfh
+  obtain ⟨g1, g2, g3, g4, g5⟩ := (lhg_wf_iff _).1 hgh
+  have key : ∀ (l1 l2 : List Nat), (∀ i ∈ l1, i < f.hypergraph.nodes.length) →
+      (∀ i ∈ l2, i < g.hypergraph.nodes.length) →
+      ∀ i ∈ l1 ++ l2.map (· + f.hypergraph.nodes.length),
+        i < (f.hypergraph.nodes ++ g.hypergraph.nodes).length := by
+    intro l1 l2 h1 h2 i hi
+    rw [List.length_append]
+    rcases List.mem_append.1 hi with hi | hi
+    · have := h1 i hi; omega
+    · obtain ⟨j, hj, rfl⟩ := List.mem_map.1 hi
+      have := h2 j hj; omega
+  rw [lohg_wf_iff, lhg_wf_iff]
+  refine ⟨⟨?_, ?_, ?_, key _ _ f4 g4, key _ _ f5 g5⟩, key _ _ hfs hgs, key _ _ hft hgt⟩
+  · simp [LOHG.tensor, LHG.coproduct, f1, g1]
+  · intro e he
+    rcases List.mem_append.1 he with he | he
+    · constructor
+      · intro i hi
+        exact key e.sources [] (f2 e he).1 (by simp) i (by simpa using hi)
+      · intro i hi
+        exact key e.targets [] (f2 e he).2 (by simp) i (by simpa using hi)
+    · obtain ⟨e0, he0, rfl⟩ := List.mem_map.1 he
+      constructor
+      · intro i hi
+        exact key [] e0.sources (by simp) (g2 e0 he0).1 i (by simpa using hi)
+      · intro i hi
+        exact key [] e0.targets (by simp) (g2 e0 he0).2 i (by simpa using hi)
+  · simp [LOHG.tensor, LHG.coproduct, f3, g3]
+
 end LaxStrict
 end OH
